@@ -293,6 +293,79 @@ class SimE(Simulator):
         ops.append(["stop_check"])
         return {"cfg": {"recovery": False, "runlog_every": 2, "wellformed": False}, "method": method, "ops": ops}
 
+    # -- profile: analyzer as gate, engine as executor (C20)
+    def _gen_analyze(self, rng: random.Random, tier: str) -> dict:
+        feats = gen.pick_features(rng, never=["pause", "hold", "alarm"], p=0.5)
+        method = gen.gen_method(rng, feats, max_lines=rng.randint(2, 12), time_scale=0.3)
+        near = ["Watch: PV1 > 3", "Watch: PV1 > 3 degC", "Watch: PV2 < 300 K", "Watch: LVL > 5 L/h", "Watch: Nope > 3",
+                "Watch: Run Counter > 1", "Watch: Run Time > 1 min", "Watch: Block Time > 0.01 h", "Watch: OUT1 > 5 %",
+                "Watch: OUT2 = Open", "Watch: System State = Running", "Watch: PV1 >= 0.001 L/min", "Watch: PV1 > 1 mL/h",
+                "Watch: VOL > 1 mL", "Watch: Accumulated Volume > 0.1 L", "Watch: Accumulated CV > 0.1 CV", "Watch: CV > 1 L",
+                "Set1: 5", "Set1: 5 %", "Set1: abc", "Set1: 5 L", "Set3: 1.5", "Set3: x", "Ramp: 3", "Ramp: 3.5", "Ramp: -1",
+                "Valve: Open", "Valve: Half", "Valve: Open+Closed", "Valve", "LongA: 2", "LongA", "Boom: 1",
+                "Simulate: PV1 = 5 L/h", "Simulate: PV1 = 5", "Simulate: PV1 = 5 degC", "Simulate: Nope = 1", "Simulate: OUT2 = Open",
+                "Simulate off: PV1", "Simulate off: Nope", "Wait: 0.2s", "Wait: 0.2", "Wait: 1 L", "Base: s", "Base: L", "Base: CV",
+                "Base: furlong", "Run counter: 2", "Run counter: x", "Call macro: Nope", "NoSuchCommand: 1", "Pause: 0.2s",
+                "Pause: 1", "Hold: 0.2 s", "Info: hello", "Notify: hi", "0.01 Mark: thr", "Increment run counter"]
+        for _ in range(rng.randint(1, 4)):
+            k = rng.randint(0, len(method))
+            txt = rng.choice(near)
+            if txt.startswith("Watch"):
+                method = method[:k] + [[f"N{k}a{rng.randint(0, 999)}", txt], [f"N{k}b{rng.randint(0, 999)}", "    Mark: w"]] + method[k:]
+            else:
+                method = method[:k] + [[f"N{k}c{rng.randint(0, 999)}", txt]] + method[k:]
+        seen = set()
+        for i, ln in enumerate(method):
+            if ln[0] in seen:
+                ln[0] = ln[0] + "_%d" % i
+            seen.add(ln[0])
+        ops: list[list] = [["analyze"], ["user", "Start"], ["volrate", 0.3]]
+        for _ in range(rng.randint(2, 6)):
+            ops.append(["tick", rng.choice([3, 5, 8, 13]), 0.1])
+            name = rng.choice(list(gen.PV_VALUES))
+            ops.append(["pv", name, rng.choice(gen.PV_VALUES[name])])
+        ops.append(["pv", "PV1", 10.0])
+        ops.append(["pv", "PV2", 5.0])
+        ops.append(["pv", "LVL", 90.0])
+        ops.append(["settle", 150])
+        ops.append(["analyze_verdict"])
+        return {"cfg": {"runlog_every": 50, "wellformed": False}, "method": method, "ops": ops}
+
+    # -- profile: local archive on an in-memory file system (C39)
+    def _gen_archive(self, rng: random.Random, tier: str) -> dict:
+        specials = ["a,b", "x;y", "back\\slash", 'q"uote', "it's", "semi; colon", "a, b; c", "tab\there", "comma,",
+                    "plain", "50 %", "a\\,b", "ends\\"]
+        method = []
+        n = rng.randint(2, 9)
+        for i in range(n):
+            r = rng.random()
+            if r < 0.6:
+                method.append([f"L{i:03d}", f"Mark: {rng.choice(specials)}{i}"])
+            elif r < 0.75:
+                method.append([f"L{i:03d}", f"Set1: {i + 1} %"])
+            elif r < 0.85:
+                method.append([f"L{i:03d}", f"Wait: {rng.choice([0.2, 0.5])}s"])
+            else:
+                method.append([f"L{i:03d}", f"Valve: {rng.choice(['Open', 'Closed'])}"])
+        ops: list[list] = [["user", "Start"]]
+        for _ in range(rng.randint(1, 4)):
+            ops.append(["tick", rng.choice([3, 6, 10, 18]), rng.choice([0.1, 0.1, 0.25])])
+            r = rng.random()
+            if r < 0.2:
+                ops.append(["user", "Restart"])
+            elif r < 0.35:
+                ops.append(["user", "Stop"])
+                ops.append(["tick", 3, 0.1])
+                ops.append(["user", "Start"])
+            elif r < 0.5:
+                name = rng.choice(list(gen.PV_VALUES))
+                ops.append(["pv", name, rng.choice(gen.PV_VALUES[name])])
+        ops.append(["tick", 5, 0.1])
+        ops.append(["end_stop"])
+        ops.append(["archive_check"])
+        return {"cfg": {"archiver": True, "data_log_interval": rng.choice([0.05, 0.25, 0.6]), "runlog_every": 50,
+                        "wellformed": False}, "method": method, "ops": ops}
+
     def shrink(self, plan: dict) -> Iterator[dict]:
         # drop method lines (whole sub-trees), shorten tick runs, normalise dt
         m = plan["method"]
@@ -321,7 +394,13 @@ class SimE(Simulator):
         res = RunResult()
         rec = Recorder()
         cfg = plan.get("cfg", {})
-        world = EngineWorld(res, rec, recovery=cfg.get("recovery", False))
+        fs = None
+        if cfg.get("archiver"):
+            from .memfs import MemFS
+            fs = MemFS()
+        world = EngineWorld(res, rec, recovery=cfg.get("recovery", False), archiver=bool(cfg.get("archiver")),
+                            data_log_interval=cfg.get("data_log_interval", 5.0), fs=fs)
+        world.fs = fs
         try:
             self._run(world, plan, res, tape)
         finally:
